@@ -46,12 +46,54 @@ def if_(c):
     return {"op": "if", "c": c}
 
 
+def needs_defs(call, defined):
+    """Temporaries a call reads / certainly assigns (for typed generation).  `defined` are the names
+    that always have a value (inputs)."""
+    from . import exprs
+    op = call["op"]
+    reads, defs, loopids = set(), set(), set()
+    if op == "assign":
+        loopids = {i for i, _lo, _hi in call.get("loops", [])}
+        exprs.variables(call["rhs"], reads)
+        for s in call.get("sub", []):
+            exprs.variables(s, reads)
+        for _i, lo, hi in call.get("loops", []):
+            exprs.variables(lo, reads)
+            exprs.variables(hi, reads)
+        if call.get("sub"):
+            reads.add(call["lhs"])
+        elif not call.get("loops"):
+            defs.add(call["lhs"])
+    elif op == "acall":
+        for a in call["args"]:
+            exprs.variables(a, reads)
+        for _k, a in call["kw"]:
+            exprs.variables(a, reads)
+        defs.update(call["lhs"])
+    elif op == "yield":
+        exprs.variables(call["e"], reads)
+        exprs.variables(call["time"], reads)
+    elif op == "if":
+        exprs.variables(call["c"], reads)
+    return sorted(reads - loopids - set(defined)), sorted(defs)
+
+
+def annotate(alphabet, defined):
+    out = []
+    for c in alphabet:
+        n, d = needs_defs(c, defined)
+        out.append(dict(c, needs=n, defs=d))
+    return out
+
+
 def tlc_programs(alphabet, depth, maxnest=2, minlen=1, simulate=None, seed=0, chk=None,
-                 timeout=900):
+                 timeout=900, typed=None):
     """Run ProgGen over the alphabet (structural entries are appended here).  Returns the list of
-    distinct programs, each a list of call dicts."""
-    alpha = list(alphabet) + STRUCT
-    prof = {"alphabet": alpha, "depth": depth, "maxnest": maxnest, "minlen": minlen}
+    distinct programs, each a list of call dicts.  typed = set of always-defined names switches on
+    the generation of programs that only read assigned temporaries."""
+    alpha = annotate(list(alphabet) + STRUCT, typed or ())
+    prof = {"alphabet": alpha, "depth": depth, "maxnest": maxnest, "minlen": minlen,
+            "typed": typed is not None}
     path = tlc.write_cases(prof, prefix="profile_")
     if simulate:
         res = tlc.run_tlc("ProgGen", env={"PROFILE": path}, workers=1,
@@ -67,32 +109,48 @@ def tlc_programs(alphabet, depth, maxnest=2, minlen=1, simulate=None, seed=0, ch
         if key in seen:
             continue
         seen.add(key)
-        out.append([alpha[k - 1] for k in idxs])
+        out.append([{f: v for f, v in alpha[k - 1].items() if f not in ("needs", "defs")} for k in idxs])
     return out, res
 
 
-def random_program(rng, alphabet, length, maxnest=2):
+def random_program(rng, alphabet, length, maxnest=2, typed=None):
     """Seeded sampler with the same protocol as ProgGen (used for programs longer than TLC's
     exhaustive bound)."""
     calls = []
     stack = []
     last_if = False
-    plain = [a for a in alphabet if a["op"] != "if"]
-    ifs = [a for a in alphabet if a["op"] == "if"]
-    while len(calls) + len(stack) < length:
+    alpha = annotate(alphabet, typed or ())
+    defd = [set()]
+
+    def ready(a):
+        return typed is None or set(a["needs"]) <= defd[-1]
+
+    def strip(a):
+        return {f: v for f, v in a.items() if f not in ("needs", "defs")}
+
+    guard = 0
+    while len(calls) + len(stack) < length and guard < 10 * length:
+        guard += 1
         r = rng.random()
+        plain = [a for a in alpha if a["op"] != "if" and ready(a)]
+        ifs = [a for a in alpha if a["op"] == "if" and ready(a)]
         if stack and r < 0.2:
             top = stack.pop()
+            defd.pop()
             calls.append({"op": "endif" if top == "if" else "endelse"})
             last_if = top == "if"
         elif ifs and len(stack) < maxnest and r < 0.4 and len(calls) + len(stack) + 2 <= length:
-            calls.append(rng.choice(ifs))
+            calls.append(strip(rng.choice(ifs)))
             stack.append("if")
+            defd.append(set(defd[-1]))
         elif last_if and len(stack) < maxnest and r < 0.5 and len(calls) + len(stack) + 2 <= length:
             calls.append({"op": "else"})
             stack.append("else")
-        else:
-            calls.append(rng.choice(plain))
+            defd.append(set(defd[-1]))
+        elif plain:
+            a = rng.choice(plain)
+            calls.append(strip(a))
+            defd[-1] |= set(a["defs"])
     while stack:
         top = stack.pop()
         calls.append({"op": "endif" if top == "if" else "endelse"})
